@@ -123,6 +123,7 @@ func runC15(p *Prog, l *Ledger) {
 			}
 		})
 		var bad3, bad4 []string
+		periodFactors := map[string]FieldRef{}
 		// the bound the counter is compared with: a constant (count-down) or a value computed, at the time of the test,
 		// from the current estimate (count-up to multiplier x limit) - never a snapshot stored when the period began
 		if counter != nil {
@@ -168,6 +169,8 @@ func runC15(p *Prog, l *Ledger) {
 							case fr.Type != nil && types.Identical(fr.Type, T) && !p.FieldImmutable(fr) && !sameField(fr, *counter):
 								// a jitter factor redrawn at each probe is fine as long as the estimate itself is read now
 								usesMutable = fr.Name
+							case fr.Type != nil && types.Identical(fr.Type, T) && p.FieldImmutable(fr) && isIntegral(structOf(T).Field(fr.Index).Type()):
+								periodFactors[p.FieldKey(fr)] = fr
 							}
 							return
 						}
@@ -184,6 +187,13 @@ func runC15(p *Prog, l *Ledger) {
 						bad4 = append(bad4, fmt.Sprintf("%s: the probe counter is compared with %s, a value stored earlier, not with a bound computed from the current estimate: after the limit shrinks the next reset is still scheduled for the old limit", p.At(ins), usesMutable))
 					}
 				})
+			}
+		}
+		// a configured factor of the probe period (Vegas: probe multiplier x jitter x estimate) is positive: with a zero or
+		// negative factor the count-up test is never (or always) satisfied and the baseline is never (or constantly) reset
+		for k, fr := range periodFactors {
+			if !p.ImmutableFieldBound(fr, 1, false) {
+				bad4 = append(bad4, fmt.Sprintf("the probe period factor %s is not proved >= 1 by the constructors: a non-positive value switches the periodic baseline reset off (or fires it on every sample)", k))
 			}
 		}
 		// who may write the counter: OnSample itself (where the path rule below sees every write) and constructors
@@ -203,6 +213,8 @@ func runC15(p *Prog, l *Ledger) {
 				}
 			}
 		}
+		rearmConfig := map[string]FieldRef{}
+		var movingPaths []*Path
 		npaths, nprobe := 0, 0
 		EnumPaths(on, 200000, func(pa *Path) bool {
 			if !pa.IsReturn() {
@@ -227,6 +239,29 @@ func runC15(p *Prog, l *Ledger) {
 						if counter != nil && sameField(fr, *counter) {
 							rearm++
 							v := strip(pa.Resolve(x.Val, step), true)
+							// configuration the new period is computed from
+							seenV := map[ssa.Value]bool{}
+							var walkV func(w ssa.Value, d int)
+							walkV = func(w ssa.Value, d int) {
+								if w == nil || seenV[w] || d > 12 {
+									return
+								}
+								seenV[w] = true
+								if f2, _, ok := loadedField(w); ok {
+									if f2.Type != nil && types.Identical(f2.Type, T) && p.FieldImmutable(f2) && isIntegral(structOf(T).Field(f2.Index).Type()) {
+										rearmConfig[p.FieldKey(f2)] = f2
+									}
+									return
+								}
+								if i2, ok := w.(ssa.Instruction); ok {
+									for _, op := range i2.Operands(nil) {
+										if op != nil && *op != nil {
+											walkV(*op, d+1)
+										}
+									}
+								}
+							}
+							walkV(v, 0)
 							if c15DrawsRand(p, pa, step, v, 0) {
 								rearmFresh = true
 							}
@@ -291,6 +326,9 @@ func runC15(p *Prog, l *Ledger) {
 				} else if deltas != 1 {
 					bad4 = append(bad4, fmt.Sprintf("the probe counter is advanced %d times on a path (want exactly once, before any return): %s", deltas, joinWitness(p.DescribePath(pa))))
 				}
+				if (deltas > 0 || rearm > 0) && len(movingPaths) < 4000 {
+					movingPaths = append(movingPaths, pa)
+				}
 				if rearm > 0 {
 					nprobe++
 					if !(reset || replaced) {
@@ -312,6 +350,32 @@ func runC15(p *Prog, l *Ledger) {
 		} else {
 			if nprobe == 0 {
 				bad4 = append(bad4, "no path re-arms the probe counter: the baseline is never refreshed")
+			}
+			// a period that the configuration can switch off (the field the new period is computed from is not proved >= 1
+			// by the constructors: it can hold the 'disabled' value): the counter then moves only on paths that tested that
+			// field - testing the counter instead lets a disabled limit count down and probe on every sample
+			for k, cf := range rearmConfig {
+				if p.ImmutableFieldBound(cf, 1, false) {
+					continue
+				}
+				for _, pa := range movingPaths {
+					tested := false
+					for _, fct := range pa.Facts {
+						bo, ok := fct.Cond.(*ssa.BinOp)
+						if !ok {
+							continue
+						}
+						for _, side := range []ssa.Value{bo.X, bo.Y} {
+							if f2, _, ok := loadedField(strip(side, true)); ok && sameField(f2, cf) {
+								tested = true
+							}
+						}
+					}
+					if !tested {
+						bad4 = append(bad4, fmt.Sprintf("the probe counter moves on a path that has not tested %s, which the constructors allow to hold the 'probing disabled' value: %s", k, joinWitness(p.DescribePath(pa))))
+						break
+					}
+				}
 			}
 			l.Check(len(bad4) == 0, "O4", p.Key(on), p.FuncPos(on), fmt.Sprintf("%d paths, %d probe paths; counter %s advanced once per sample; probe re-arms from a random draw and resets the baseline", npaths, nprobe, counter.Name), "probing bookkeeping can let an obsolete baseline persist", bad4...)
 		}
@@ -387,6 +451,25 @@ func c15DrawsRand(p *Prog, pa *Path, step int, v ssa.Value, depth int) bool {
 		}
 		if c.Static != nil && p.InModule(c.Static) && c15UsesRand(p, c.Static, 2) {
 			return true
+		}
+		// the random source handed to a helper that calls it (newProbeJitter(l.jitterSource), the field holding rand.Float64)
+		if c.Static != nil && p.InModule(c.Static) {
+			for i, a := range call.Call.Args {
+				fv := p.constFuncOf(pa.Resolve(a, step))
+				if fv == nil || fv.Pkg == nil || fv.Pkg.Pkg.Path() != "math/rand" || i >= len(c.Static.Params) {
+					continue
+				}
+				prm := c.Static.Params[i]
+				calledIt := false
+				allInstrs(c.Static, func(ins ssa.Instruction) {
+					if ci, ok := ins.(ssa.CallInstruction); ok && ci.Common().Value == ssa.Value(prm) {
+						calledIt = true
+					}
+				})
+				if calledIt {
+					return true
+				}
+			}
 		}
 	}
 	ins, ok := v.(ssa.Instruction)
